@@ -76,6 +76,8 @@ pub enum Ev {
     TextMsg { id: u32, pos: usize },
     FileInfo(u32),
     StreamInfo { id: u32, nr_stream_msgs: u32, processed: u32, total: u32 },
+    /// lifecycle updates: (id, ecu, nr_msgs, start_time, end_time)
+    Lifecycles(Vec<(u32, u32, u32, u64, u64)>),
     Other,
 }
 
@@ -113,6 +115,7 @@ fn decode_bin(b: &[u8]) -> Ev {
                 .collect(),
         },
         Ok((BinType::FileInfo(f), _)) => Ev::FileInfo(f.nr_msgs),
+        Ok((BinType::Lifecycles(l), _)) => Ev::Lifecycles(l.iter().map(|x| (x.id, x.ecu, x.nr_msgs, x.start_time, x.end_time)).collect()),
         Ok((BinType::StreamInfo(s), _)) => Ev::StreamInfo { id: s.stream_id, nr_stream_msgs: s.nr_stream_msgs, processed: s.nr_file_msgs_processed, total: s.nr_file_msgs_total },
         _ => Ev::Other,
     }
